@@ -5,9 +5,9 @@ Property theorems over `Model/Rac/ChunkReader.lean`, which mirrors `lib/rac/chun
 as repaired by /verif/fixes/C15-*.patch.  Everything is for EVERY byte string `f` and EVERY
 claimed size: `Reachable f claimed r` says `r` is a `ChunkReader` state that some sequence of
 `NextChunk` / `SeekToChunkContaining` calls reaches after `initialize`.
-Helper lemmas live in `Proof/RacNode.lean`, `Proof/RacResolve.lean`, `Proof/RacReader.lean`.
+Helper lemmas live in `Proof/C15Node.lean`, `Proof/C15Resolve.lean`, `Proof/C15Reader.lean`.
 -/
-import WuffsVerif.Proof.RacReader
+import WuffsVerif.Proof.C15Reader
 
 namespace WuffsVerif.Props.C15
 open WuffsVerif.Rac.ChunkReader
